@@ -3,7 +3,7 @@ import _dbprop, dbcheck
 PROP = "C08"
 def run(tier, seed):
     return _dbprop.run(PROP, tier, seed, [('crash', 24, 160), ('alter', 6, 60)],
-        ['every image must open; the recovered database is closed and opened again (contents must be identical), then a probe table is created, written and read', 'recorded finding CheckpointNotAtomic: crash points inside a checkpoint are not constrained'],
-        'image = files after the k-th write; each is opened twice by a child process; non-trivial as in C01', mc=None, level='fault_enumeration', pre=dbcheck.model_check_recovery, nontrivial_key='nontrivial', extra={"crash": ["--points", "90" if tier == "quick" else "100000"]})
+        ['every image must open; the recovered database is closed and opened again (contents must be identical), then a probe table is created, written and read', 'recorded finding CheckpointNotAtomic: crash points inside a checkpoint (also the one that ends recovery) are not constrained'],
+        'image = files after the k-th write; each is opened twice by a child process and audited page by page; depth 2: the writes of that recovery are recorded and the files as they were after its j-th write (quick: 8 spread points per image, thorough: every write) are opened by a third process, which must open, be sound and read the same contents; non-trivial as in C01', mc=None, level='fault_enumeration', pre=dbcheck.model_check_recovery, nontrivial_key='nontrivial', extra={"crash": ["--points", "90" if tier == "quick" else "100000", "--nested", "8" if tier == "quick" else "100000"]})
 def replay(path, seed):
     return dbcheck.replay_trace(PROP, path, seed)
